@@ -11,6 +11,10 @@
 #include <rapidcheck.h>
 #include "../../vlib/vlib.h"
 #include <deque>
+#include <atomic>
+#include <thread>
+#include <chrono>
+#include <sys/syscall.h>
 extern "C" {
 #include <plibsys.h>
 }
@@ -50,6 +54,7 @@ void showValue(const Case &c, std::ostream &os) { os << to_text(c); }
 struct Outcome { string verdict, klass; bool nontrivial = false; uint64_t fp = 0; };
 int g_seq = 0;
 
+std::atomic<long> g_progress{0};
 Outcome run_case(const Case &c) {
   Outcome out;
   bool tainted_smaller = false; // a handle was opened with a smaller size argument than the creator's (known finding D8)
@@ -72,6 +77,7 @@ Outcome run_case(const Case &c) {
   };
   for (auto &o : c.ops) {
     if (!out.verdict.empty()) break;
+    g_progress++;
     switch (o.kind) {
     case 'o': {
       int rel = o.mode % 4;
@@ -165,10 +171,38 @@ rc::Gen<Case> genCase() {
 }
 
 int g_failed = 0;
+// Watchdog for "an operation never returns" (e.g. a missing unlock on an early-return path): the case is single-threaded and
+// uses a private name, so if the main thread sits in a futex wait (sem_wait) for 10 s nobody can ever release it.  CPU
+// starvation cannot trigger this: a starved thread is runnable, not blocked in the futex system call.
+pid_t g_main_tid = 0;
+string g_cur_sub, g_cur_text;
+string main_syscall() { char p[64]; snprintf(p, sizeof p, "/proc/self/task/%d/syscall", (int)g_main_tid); FILE *f = fopen(p, "r"); if (!f) return ""; char b[256] = ""; if (!fgets(b, sizeof b, f)) b[0] = 0; fclose(f); return b; }
+void watchdog() {
+  long last = -1; int stuck = 0;
+  for (;;) {
+    std::this_thread::sleep_for(std::chrono::seconds(1));
+    long now = g_progress.load();
+    if (now != last) { last = now; stuck = 0; continue; }
+    if (++stuck < 10) continue;
+    string a = main_syscall();
+    std::this_thread::sleep_for(std::chrono::milliseconds(500));
+    string b = main_syscall();
+    if (a.rfind("202 ", 0) == 0 && a == b && g_progress.load() == now && !g_cur_text.empty()) {
+      vl::report_failure(g_cur_sub + "_hang", g_cur_text, "C08:operation-does-not-return: an operation on the buffer never returned: the only thread of the process has been blocked in a futex wait (sem_wait of the buffer lock) for 10 s although no handle holds the lock - a lock was not released on some return path", "operation-does-not-return");
+      vl::stats().flush();
+      fprintf(stderr, "REPLAY-FAIL C08:operation-does-not-return: blocked forever in the buffer lock\n");
+      printf("REPLAY-FAIL C08:operation-does-not-return: blocked forever in the buffer lock\n"); fflush(stdout);
+      _exit(1);
+    }
+    stuck = 0;
+  }
+}
 void exec(const string &sub, const Case &c, bool rc_mode) {
   string text = to_text(c);
   vl::set_current_case(sub.c_str(), text);
+  g_cur_sub = sub; g_cur_text = text; g_progress++;
   Outcome o = run_case(c);
+  g_progress++;
   vl::stats().record(text, o.nontrivial, o.fp);
   if (!o.verdict.empty()) { vl::report_failure(sub, text, "C08:" + o.klass + ": " + o.verdict, o.klass); if (rc_mode) RC_FAIL(o.verdict); g_failed++; }
 }
@@ -202,10 +236,12 @@ int run_generated() {
   if (sub == "all" || sub == "rand") { bool ok = rc::check("shm buffer vs FIFO model", [&] { Case c = *genCase(); exec("rand", c, true); }); if (!ok) g_failed++; }
   return g_failed;
 }
-string run_replay(const string &text) { Case c; if (!from_text(text, c)) return "unparsable case"; Outcome o = run_case(c); return o.verdict.empty() ? "" : "C08:" + o.klass + ": " + o.verdict; }
+string run_replay(const string &text) { Case c; if (!from_text(text, c)) return "unparsable case"; g_cur_sub = "replay"; g_cur_text = text; g_progress++; Outcome o = run_case(c); g_progress++; return o.verdict.empty() ? "" : "C08:" + o.klass + ": " + o.verdict; }
 } // namespace
 
 int main(int argc, char **argv) {
   p_libsys_init();
+  g_main_tid = (pid_t)syscall(SYS_gettid);
+  std::thread(watchdog).detach();
   return vl::harness_main(argc, argv, run_generated, run_replay);
 }
